@@ -164,3 +164,71 @@ pub fn has_none_and_some(a: &[(String, IV, bool)]) -> (bool, bool) {
     walk(&IV::Object(a.to_vec()), &mut n, &mut s);
     (n, s)
 }
+
+/// Assignments that put `null` at (or drop the key of) one non-null object member / variable:
+/// `(what, assignment JSON)`. A `Variables` type that can express these is not precise.
+pub fn nonnull_violations(a: &[(String, IV, bool)], cap: usize) -> Vec<(String, Value)> {
+    #[derive(Clone)]
+    enum Seg {
+        K(String),
+        I(usize),
+    }
+    fn walk(v: &IV, path: &mut Vec<Seg>, out: &mut Vec<Vec<Seg>>) {
+        match v {
+            IV::Object(fs) => {
+                for (k, v, nullable) in fs {
+                    path.push(Seg::K(k.clone()));
+                    if !*nullable && !matches!(v, IV::Absent) {
+                        out.push(path.clone());
+                    }
+                    walk(v, path, out);
+                    path.pop();
+                }
+            }
+            IV::List(items) => {
+                for (i, it) in items.iter().enumerate() {
+                    path.push(Seg::I(i));
+                    walk(it, path, out);
+                    path.pop();
+                }
+            }
+            IV::OneOf(k, v) => {
+                path.push(Seg::K(k.clone()));
+                walk(v, path, out);
+                path.pop();
+            }
+            _ => {}
+        }
+    }
+    let mut paths = Vec::new();
+    walk(&IV::Object(a.to_vec()), &mut Vec::new(), &mut paths);
+    let base = assignment_input(a);
+    fn parent<'v>(root: &'v mut Value, path: &[Seg]) -> Option<&'v mut Value> {
+        let mut cur = root;
+        for s in &path[..path.len() - 1] {
+            cur = match s {
+                Seg::K(k) => cur.get_mut(k.as_str())?,
+                Seg::I(i) => cur.get_mut(*i)?,
+            };
+        }
+        Some(cur)
+    }
+    let show = |p: &[Seg]| -> String {
+        p.iter().map(|s| match s { Seg::K(k) => format!(".{}", k), Seg::I(i) => format!("[{}]", i) }).collect()
+    };
+    let mut out = Vec::new();
+    for p in paths.iter().take(cap) {
+        let Some(Seg::K(last)) = p.last().cloned() else { continue };
+        let mut v = base.clone();
+        if let Some(Value::Object(m)) = parent(&mut v, p) {
+            m.insert(last.clone(), Value::Null);
+            out.push((format!("null at the non-null position {}", show(p)), v));
+        }
+        let mut v = base.clone();
+        if let Some(Value::Object(m)) = parent(&mut v, p) {
+            m.remove(&last);
+            out.push((format!("no key for the non-null position {}", show(p)), v));
+        }
+    }
+    out
+}
